@@ -132,13 +132,23 @@ KINDS["alpha"] = ({"$ref": "#/definitions/Alpha"},
 KINDS["zed"] = ({"$ref": "#/definitions/Zed"}, [{"alpha": {"name": "x"}}, {"alpha": {"name": "y"}, "n": 0}], [])
 KINDS["pa"] = ({"$ref": "#/definitions/Pa"}, [{"id": 1}, {"id": 2, "q": {"label": "l", "pa": {"id": 3}}}], [])
 KINDS["qa"] = ({"$ref": "#/definitions/Qa"}, [{"label": "a", "pa": {"id": 4}}], [])
-CORPUS_ONLY = {"node", "rb", "rbs", "alpha", "zed", "pa", "qa"}
+# containers OF a named generated type (seed C18-s7: the element type of `[T; N]` rendered in the wrong module
+# scope inside `mod builder`); forced as Required members only, never drawn by the random stream
+KINDS["arrinner"] = ({"type": "array", "items": {"$ref": "#/definitions/Inner"}, "minItems": 2, "maxItems": 2},
+                     [[{}, {"x": 1}]], [])
+KINDS["tupinner"] = ({"type": "array", "items": [{"$ref": "#/definitions/Inner"}, {"$ref": "#/definitions/Color"}],
+                      "minItems": 2, "maxItems": 2}, [[{"x": 2}, "red"]], [])
+KINDS["vecinner"] = ({"type": "array", "items": {"$ref": "#/definitions/Inner"}}, [[], [{}, {"y": "s"}]], [])
+KINDS["mapinner"] = ({"type": "object", "additionalProperties": {"$ref": "#/definitions/Inner"}},
+                     [{}, {"k": {"x": 3}}], [])
+CORPUS_ONLY = {"node", "rb", "rbs", "alpha", "zed", "pa", "qa", "arrinner", "tupinner", "vecinner", "mapinner"}
 TD_KINDS = ["shortd", "enumnt", "aliasd", "aliass", "level", "cfgd", "retries", "ratio", "flag",
             "oretries", "oshortd", "olevel", "oaliass", "ishort", "ilevel", "ienumnt", "icfg"]
 
 
 ALL_REQ_KINDS = ["unit", "bool", "int", "u8", "i32", "nonzero", "num", "f32", "str", "uuid", "datetime", "date", "ip",
-                 "nullable", "vec", "map", "set", "tuple", "array", "color", "onoff", "inner", "pair", "short", "pat", "any"]
+                 "nullable", "vec", "map", "set", "tuple", "array", "color", "onoff", "inner", "pair", "short", "pat", "any",
+                 "arrinner", "tupinner", "vecinner", "mapinner"]
 
 
 def force_list():
